@@ -338,7 +338,6 @@ fn retire_step<const N: usize, const M: usize>(off: u64, limit_set: bool) -> Out
 fn c14_local_retire_n2() {
     let o = retire_step::<2, 3>(OFF_FRESH, kani::any());
     // (each satisfied cover costs a full JSON trace of the run: only the branches that matter here)
-    kani::cover!(o.was_active && o.seq == o.off && o.new_off == o.off + 1, "retire the oldest: the table slides by one");
     kani::cover!(o.was_active && o.seq > o.off && o.new_off == o.off, "retire out of order: a hole");
     kani::cover!(o.seq >= o.largest, "retire an unissued number");
 }
@@ -351,7 +350,6 @@ fn c14_local_retire_n3() {
     let o = retire_step::<3, 4>(OFF_SLID, kani::any());
     kani::cover!(o.was_active && o.new_off == o.off + 2, "retire the oldest: the table slides past an older hole");
     kani::cover!(!o.was_active && o.seq >= o.off && o.seq < o.largest, "retire a hole again: no-op");
-    kani::cover!(o.seq < o.off, "retire a number that slid out long ago: no-op");
 }
 
 // pending: the error KIND for an unissued sequence number. RFC 9000 §19.16: "Receipt of a
